@@ -179,6 +179,21 @@ class SliceSeqV:
         return f"SliceSeqV(len={self.n})"
 
 
+class TupSeqV:
+    """sequence of symbolic length whose elements are tuples of a fixed arity; every component is a SliceSeqV
+    (struct of arrays).  Models e.g. list(product(slices_axis0)) at rank 1."""
+    __slots__ = ("n", "comps", "kind")
+
+    def __init__(self, n, comps, kind="list"):
+        self.n, self.comps, self.kind = n, comps, kind
+
+    def get(self, t):
+        return TupV([c.get(t) for c in self.comps], "tuple")
+
+    def __repr__(self):
+        return f"TupSeqV(len={self.n}, arity={len(self.comps)})"
+
+
 class SortedItemsV:
     """sorted(d.items()) of a dict[int -> slice]: the increasing key sequence plus the map"""
     __slots__ = ("m", "keys", "n")
@@ -252,7 +267,7 @@ class ObjV:
         return f"ObjV<{self.cls}>({list(self.fields)})"
 
 
-SYM_CLASSES = (Opt, BoolV, RealV, SliceV, SeqV, TupV, MapV, ObjV, AbsV, SliceSeqV, SortedItemsV)
+SYM_CLASSES = (Opt, BoolV, RealV, SliceV, SeqV, TupV, MapV, ObjV, AbsV, SliceSeqV, SortedItemsV, TupSeqV)
 
 
 def is_sym(x):
@@ -707,6 +722,8 @@ def item(t, i):
 def slen(t):
     if isinstance(t, SeqV):
         return f_len(t.t)
+    if isinstance(t, (SliceSeqV, TupSeqV)):
+        return t.n
     if isinstance(t, TupV):
         return len(t.items)
     return len(t)
@@ -717,6 +734,15 @@ def at(t, i):
         return f_at(t.t, _i(i))
     if isinstance(t, TupV):
         return as_int(t.items[i])
+    return t[i]
+
+
+def elem(t, i):
+    """i-th element of a sequence of slices / of tuples (symbolic SliceSeqV, TupSeqV) or of a concrete list"""
+    if isinstance(t, (SliceSeqV, TupSeqV)):
+        return t.get(_i(i))
+    if isinstance(t, TupV):
+        return t.items[i]
     return t[i]
 
 
